@@ -66,7 +66,7 @@ func genCases(seed int64, tier string) []core.Case {
 	rng := rand.New(rand.NewSource(seed*32452843 + 13))
 	nc, per := 32, 25
 	if tier == "thorough" {
-		nc, per = 320, 48
+		nc, per = 1280, 48
 	}
 	var out []core.Case
 	for i := 0; i < nc; i++ {
